@@ -75,6 +75,15 @@ type Row struct {
 	StCur    string `json:"st_cur"`
 	StEpoch  int    `json:"st_epoch"`
 	Verifies []bool `json:"verifies"`
+	// get_domain: for message epoch M the version selected from the row's Fork record (and what the configuration
+	// reports for M)
+	Domain []DomainProbe `json:"domain"`
+}
+
+type DomainProbe struct {
+	M             int    `json:"m"`
+	Version       string `json:"version"`
+	ConfigVersion string `json:"config_version"`
 }
 
 func fatal(msg string) {
@@ -102,6 +111,8 @@ type realisation struct {
 	versions []common.Version // per fork index
 	// concrete epochs to probe for an abstract probe epoch (all must lie in the same fork interval as the abstract one)
 	probes func(abs int) []uint64
+	// concrete value of an abstract (non-FAR) fork epoch recorded in a Fork record
+	forkEpoch func(abs int) uint64
 }
 
 func specVersions(sp *common.Spec) []common.Version {
@@ -154,6 +165,7 @@ func scaled(sched []int, k uint64, spe uint64) *realisation {
 	maxEpoch := farFuture / uint64(sp.SLOTS_PER_EPOCH)
 	return &realisation{
 		name: fmt.Sprintf("custom(k=%d,spe=%d)", k, uint64(sp.SLOTS_PER_EPOCH)), spec: sp, versions: specVersions(sp),
+		forkEpoch: func(abs int) uint64 { return uint64(abs) * k },
 		probes: func(abs int) []uint64 {
 			switch {
 			case abs == absFAR:
@@ -209,6 +221,12 @@ func builtin(name string, sp *common.Spec) (*realisation, []int) {
 	maxRank := base + len(vals) - 1
 	maxEpoch := farFuture / uint64(sp.SLOTS_PER_EPOCH)
 	r := &realisation{name: name, spec: sp, versions: specVersions(sp),
+		forkEpoch: func(a int) uint64 {
+			if v, ok := concrete[a]; ok {
+				return v
+			}
+			return 0 // the phase0 record (fork.epoch = GENESIS_EPOCH)
+		},
 		probes: func(a int) []uint64 {
 			switch {
 			case a == absFAR:
@@ -248,6 +266,58 @@ func expectedDigest(v common.Version, gvr common.Root) common.ForkDigest {
 	var d common.ForkDigest
 	copy(d[:], r[:4])
 	return d
+}
+
+// compute_domain(domain_type, fork_version, genesis_validators_root) = domain_type ++ fork_data_root[:28]
+func expectedDomain(dt common.BLSDomainType, v common.Version, gvr common.Root) (d common.BLSDomain) {
+	fdr := forkDataRoot(v, gvr)
+	copy(d[0:4], dt[:])
+	copy(d[4:], fdr[:28])
+	return
+}
+
+var domainTypes = []common.BLSDomainType{common.DOMAIN_BEACON_PROPOSER, common.DOMAIN_BEACON_ATTESTER, common.DOMAIN_RANDAO,
+	common.DOMAIN_VOLUNTARY_EXIT, common.DOMAIN_SYNC_COMMITTEE}
+
+// domainVersionName: which fork's version a domain was derived from
+func domainVersionName(versions []common.Version, dt common.BLSDomainType, gvr common.Root, d common.BLSDomain) string {
+	for i, v := range versions {
+		if expectedDomain(dt, v, gvr) == d {
+			return forkNames[i]
+		}
+	}
+	return "unknown"
+}
+
+// forkRecordDomains: common.Fork.GetDomain on the Fork record of the row (built here from the table), for the message
+// epochs fork.epoch-1, fork.epoch, fork.epoch+1 and around the row's epoch. Covers all seven forks.
+func forkRecordDomains(c *collector, row *Row, r *realisation, gvrs []common.Root, rng *rand.Rand) {
+	if len(row.Domain) == 0 {
+		return
+	}
+	prev, cur := r.versions[forkIdx(row.StPrev)], r.versions[forkIdx(row.StCur)]
+	fe := r.forkEpoch(row.StEpoch)
+	rec := common.Fork{PreviousVersion: prev, CurrentVersion: cur, Epoch: common.Epoch(fe)}
+	for _, p := range row.Domain {
+		want := r.versions[forkIdx(p.Version)]
+		for _, ce := range r.probes(p.M) {
+			gvr := gvrs[rng.Intn(len(gvrs))]
+			dt := domainTypes[rng.Intn(len(domainTypes))]
+			got, err := rec.GetDomain(dt, gvr, common.Epoch(ce))
+			c.count("ForkGetDomain", 1)
+			if ce == fe && prev != cur {
+				c.count("get_domain_at_fork_epoch", 1)
+			}
+			if ce+1 == fe && prev != cur {
+				c.count("get_domain_before_fork_epoch", 1)
+			}
+			if err != nil || got != expectedDomain(dt, want, gvr) {
+				c.mismatch("ForkGetDomain", row, r.name, map[string]interface{}{"message_epoch": strconv.FormatUint(ce, 10),
+					"fork_record": map[string]interface{}{"previous": row.StPrev, "current": row.StCur, "epoch": strconv.FormatUint(fe, 10)},
+					"expected": p.Version, "observed": domainVersionName(r.versions, dt, gvr, got)})
+			}
+		}
+	}
 }
 
 // signing root of a block root under DOMAIN_BEACON_PROPOSER (0x00000000), version v
@@ -445,6 +515,7 @@ func lookups(c *collector, row *Row, r *realisation, gvrs []common.Root, rng *ra
 	sp := r.spec
 	want := forkIdx(row.Fork)
 	spe := uint64(sp.SLOTS_PER_EPOCH)
+	forkRecordDomains(c, row, r, gvrs, rng)
 	for _, ep := range r.probes(row.Epoch) {
 		// Spec.ForkVersion for the first and last slot of the epoch (if the epoch has slots)
 		var slots []uint64
@@ -657,6 +728,39 @@ func runChain(c *collector, rows []*Row, sched []int, nval int, spe uint64, k ui
 		if fv != obs.Cur {
 			c.mismatch("StateVsForkVersion", row, r.name, map[string]interface{}{"slot": strconv.FormatUint(slot, 10),
 				"expected": obs.Cur, "observed": fv})
+		}
+		// get_domain on the real state: message epochs around the state's epoch and around its recorded fork epoch
+		gvr, err := state.GenesisValidatorsRoot()
+		check(err)
+		frec, err := state.Fork()
+		check(err)
+		for _, p := range row.Domain {
+			want := r.versions[forkIdx(p.Version)]
+			for _, me := range r.probes(p.M) {
+				dt := domainTypes[int(slot+me)%len(domainTypes)]
+				got, err := common.GetDomain(state.BeaconState, dt, common.Epoch(me))
+				c.count("StateGetDomain", 1)
+				boundary := me == uint64(frec.Epoch) && frec.PreviousVersion != frec.CurrentVersion
+				if boundary {
+					c.count("get_domain_at_fork_epoch", 1)
+				}
+				if err != nil || got != expectedDomain(dt, want, gvr) {
+					c.mismatch("StateGetDomain", row, r.name, map[string]interface{}{"slot": strconv.FormatUint(slot, 10),
+						"message_epoch": strconv.FormatUint(me, 10), "at_fork_epoch": boundary,
+						"expected": p.Version, "observed": domainVersionName(r.versions, dt, gvr, got)})
+				}
+			}
+		}
+		// cross-check: a message of the state's own epoch is verified under the version the configuration reports
+		// for that epoch (Forks!DomainAgreement)
+		for _, dt := range domainTypes {
+			got, err := common.GetDomain(state.BeaconState, dt, common.Epoch(ce))
+			c.count("DomainVsForkVersion", 1)
+			if err != nil || got != expectedDomain(dt, sp.ForkVersion(common.Slot(slot)), gvr) {
+				c.mismatch("DomainVsForkVersion", row, r.name, map[string]interface{}{"slot": strconv.FormatUint(slot, 10),
+					"message_epoch": strconv.FormatUint(ce, 10), "at_fork_epoch": ce == uint64(frec.Epoch) && frec.PreviousVersion != frec.CurrentVersion,
+					"expected": versionName(r.versions, sp.ForkVersion(common.Slot(slot))), "observed": domainVersionName(r.versions, dt, gvr, got)})
+			}
 		}
 	}
 	compare(0)
